@@ -314,6 +314,11 @@ func sub(elems []any, nonTerminals []lex.Token, defaultField string) ([]any, []l
 		return elems, nonTerminals, false
 	}
 
+	// the group has to contain an expression, not a left over token (e.g. the inner "(" of "(()")
+	if _, ok := elems[1].(*expr.Expression); !ok {
+		return elems, nonTerminals, false
+	}
+
 	// we consumed two terminals, the ( and )
 	return []any{elems[1]}, drop(nonTerminals, 2), true
 }
